@@ -2,12 +2,12 @@
 import json
 
 from vlib.core import write_cfg  # noqa: F401  (kept for symmetry with the other modules)
-from props.C04 import par, names_jobs, report_trace_rejections, share, state_jobs, check_refutations, concurrent_phase, _mark
+from props.C04 import par, names_jobs, report_trace_rejections, share, state_jobs, check_refutations, concurrent_phase, _mark, cold_phase, report_races
 
 LEVEL = "model_checking"
 META = {
     "technique": "TLA+ spec Arpa.tla (DecodePrefix and Extract as pure operators over label/character sequences, numeric meaning computed from the digits) model-checked by TLC over a bounded family of names; every enumerated name replayed on PrefixFromReversedAddr / ExtractReversedAddr with the spec-predicted prefix or rejection; seeded random prefixes and edited names recorded from the Go code and trace-validated by TLC",
-    "level_text": "TLC enumerates every label sequence up to 4 labels over a table of octet / leading-zero / overflow / signed / nibble / multi-character / empty labels (5 over a reduced table), long nibble runs of 28..34 labels with every position corrupted by every table label and every <=4-label body in front of a 30-run, before 16 suffix shapes per family (true suffix in three case spellings, xin-addr.arpa / xip6.arpa, missing or wrong TLD, suffix not last, U+0130 / U+0131 / U+212A look-alikes, the other family's suffix, none), with 0/1/2 trailing dots and 15 kinds of leading labels (junk, octet-like, empty, 63/64-byte, total length 253/254, non-ASCII, an embedded second ARPA name). On each name it checks the lemmas (host bits zero, a prefix name extracts to itself, extraction = longest decoding suffix, full names agree with DecodeAddr, case/one-dot invariance) and emits the predicted results; the Go harness replays every name on both functions (value, rejection, *AddrError, no panic) and cross-checks the statement's own relation between the two functions. The family also replaces each of the last labels by its ACE alias xn--<label>- (never an octet, nibble or suffix label), and contains a real IDN TLD with its ACE form and control-byte look-alikes of '-', '.', '6'. Single-byte substitution: for six canonical names (full, partial and root name of each family) every position x every byte value 0..255 goes through both functions, judged in Go by the statement's relations and, every one of them, by TLC's DecodePrefix / Extract on the logged observation. No hidden state across calls and goroutines: ArpaDecState.tla proves 'each result is Extract of that call's argument' for a private folded copy and a sound buffer pool and refutes it for a pool whose non-ARPA path double-puts; the harness replays that history: from cold pools, ordinary mixed-case names (Example.COM) as warm-up, then goroutines decode their own UPPER/mIxEd-case vectors with all three decoders, interleaved with ordinary names, every result compared with the prediction, at full speed and under -race. Names in which in-addr / ip6 / arpa occur as ordinary labels (twice, in the middle, a complete name followed by more labels and a second suffix, across families) are enumerated. 10^5-10^6 random prefixes and random edits (incl. ACE wrapping of a label) are run in Go against the identity and that relation, a sample of the log is re-judged by TLC.",
+    "level_text": "TLC enumerates every label sequence up to 4 labels over a table of octet / leading-zero / overflow / signed / nibble / multi-character / empty labels (5 over a reduced table), long nibble runs of 28..34 labels with every position corrupted by every table label and every <=4-label body in front of a 30-run, before 16 suffix shapes per family (true suffix in three case spellings, xin-addr.arpa / xip6.arpa, missing or wrong TLD, suffix not last, U+0130 / U+0131 / U+212A look-alikes, the other family's suffix, none), with 0/1/2 trailing dots and 15 kinds of leading labels (junk, octet-like, empty, 63/64-byte, total length 253/254, non-ASCII, an embedded second ARPA name). On each name it checks the lemmas (host bits zero, a prefix name extracts to itself, extraction = longest decoding suffix, full names agree with DecodeAddr, case/one-dot invariance) and emits the predicted results; the Go harness replays every name on both functions (value, rejection, *AddrError, no panic) and cross-checks the statement's own relation between the two functions. The family also replaces each of the last labels by its ACE alias xn--<label>- (never an octet, nibble or suffix label), and contains a real IDN TLD with its ACE form and control-byte look-alikes of '-', '.', '6'. Single-byte substitution: for six canonical names (full, partial and root name of each family) every position x every byte value 0..255 goes through both functions, judged in Go by the statement's relations and, every one of them, by TLC's DecodePrefix / Extract on the logged observation. No hidden state across calls and goroutines: ArpaDecState.tla proves 'each result is Extract of that call's argument' for a private folded copy and a sound buffer pool and refutes it for a pool whose non-ARPA path double-puts; the harness replays that history: from cold pools, ordinary mixed-case names (Example.COM) as warm-up, then goroutines decode their own UPPER/mIxEd-case vectors with all three decoders, interleaved with ordinary names, every result compared with the prediction, at full speed and under -race. Cold start: 48 (quick) / 400 fresh processes plus 3 / 12 under -race in which 8 goroutines released by one barrier make the FIRST decoder calls of the process on sampled vectors (long nibble names valid and with one corrupted label, other names of both families), every result compared with the prediction. Names in which in-addr / ip6 / arpa occur as ordinary labels (twice, in the middle, a complete name followed by more labels and a second suffix, across families) are enumerated. 10^5-10^6 random prefixes and random edits (incl. ACE wrapping of a label) are run in Go against the identity and that relation, a sample of the log is re-judged by TLC.",
     "level_note": "Bounded: the exhaustive part covers the label-sequence family, not all strings; other inputs are sampled. 'Valid domain name' is decided by netutil.ValidateDomainName (the model of it in Arpa.tla is cross-checked on every ASCII vector).",
 }
 
@@ -34,6 +34,9 @@ def run(ctx):
     sjobs = state_jobs(ctx, d, "ArpaDecState",
                        [("pure", "{1, 2}", True), ("pool", "{1, 2}", True), ("doubleput", "{1, 2}", False)],
                        {"MaxCalls": 2, "Bufs": "{1, 2}" if q else "{1, 2, 3}"}, q)
+    sjobs += state_jobs(ctx, d, "ArpaLazyState",
+                        [("static", "{1, 2}", True), ("flaglast", "{1, 2}", True), ("flagfirst", "{1, 2}", False)],
+                        {"MaxCalls": 2}, q)
     results = par(ctx, jobs + vjobs + sjobs)
     ctx.extra["decoder_designs_refuted_by_tlc"] = check_refutations(jobs + vjobs + sjobs, results)
     _mark(ctx, "tlc-mc-gen")
@@ -41,7 +44,7 @@ def run(ctx):
     calls = distinct = nvec = 0
     for i, sd in enumerate(dirs):
         ctx.vh(["c05", "replay-names", sd / "name_vectors.ndjson", ctx.scratch / ("names%d.res" % i),
-                ctx.scratch / ("stress_units%d.ndjson" % i)])
+                ctx.scratch / ("stress_units%d.ndjson" % i), ctx.scratch / ("cold_names%d.ndjson" % i)])
         s = ctx.collect(ctx.scratch / ("names%d.res" % i))
         calls += s["calls"]
         distinct += s["distinct_nontrivial"]
@@ -78,9 +81,14 @@ def run(ctx):
     nv = [ctx.scratch / ("stress_units%d.ndjson" % i) for i in range(len(dirs))]
     concurrent_phase(ctx, "c05", [8, 40, 400] + nv if q else [16, 300, 1000] + nv,
                      [8, 10, 100] + nv if q else [12, 60, 300] + nv,
-                     "concurrent PrefixFromReversedAddr / ExtractReversedAddr / IPFromReversedAddr",
-                     "goroutines decoded their own mixed-case names")
+                     "concurrent PrefixFromReversedAddr / ExtractReversedAddr / IPFromReversedAddr")
     _mark(ctx, "concurrent")
+
+    # S: cold start - the first decoder calls of fresh processes overlap.
+    cold_phase(ctx, "c05", [ctx.scratch / "cold_names0.ndjson", ctx.scratch / "cold_names1.ndjson"], q,
+               "cold start of PrefixFromReversedAddr / ExtractReversedAddr / IPFromReversedAddr")
+    report_races(ctx, "goroutines decoded their own names (warm and cold start)")
+    _mark(ctx, "cold-start")
 
 
 def replay(ctx, path):
